@@ -85,7 +85,7 @@ pub fn check_valid(text: &str, ev: &mut Evidence, origin: &str) -> Result<Option
     Ok(Some(out))
 }
 
-const RULE18: &str = "syntactically valid grammar files: generated grammars (all profiles) in random layouts (arbitrary line breaks and indentation; line, doc and block comments between declarations, after any token on the same line, on own lines inside rule bodies, inside brackets) and the repository files. Oracle: f = format(x): format(f) == f; sampled through the real binary: `llw -f file` then `llw -f -c file` exits 0, and on the original `llw -f -c` exits 0 exactly when format(x) == x. non-trivial = text with >= 1 comment and >= 1 line break inside a rule body; distinct = the text";
+const RULE18: &str = "syntactically valid grammar files: generated grammars (all profiles) in random layouts (arbitrary line breaks and indentation; line, doc and block comments between declarations, after any token on the same line, on own lines inside rule bodies, inside brackets) and the repository files. Oracle: f = format(x): format(f) == f; sampled through the real binary: `llw -f file` then `llw -f -c file` exits 0, and on the original `llw -f -c` exits 0 exactly when format(x) == x. half of the layouts (called plain) place at most one comment per gap and none at the start of the text or directly after `:` `(` `[` (the placements of known finding K9), and any non-idempotence on such a text is reported under its own signature. non-trivial = text with >= 1 comment and >= 1 line break inside a rule body; distinct = the text";
 
 pub fn check_idem(text: &str, ev: &mut Evidence, origin: &str) -> Result<(), Violation> {
     ev.eval();
@@ -134,7 +134,20 @@ pub fn check_idem(text: &str, ev: &mut Evidence, origin: &str) -> Result<(), Vio
             k => format!("{k:?}"),
         }).unwrap_or_else(|| "end".into());
         let _ = after2;
-        let sig = format!("not-idempotent:{}>{}", last_tok.clone().unwrap_or_else(|| "start".into()), next_tok(&after));
+        // texts without a comment in one of the K9 placements get their own signature space:
+        // none of the listed findings applies to them
+        let space = if textgen::k9_shape(text) { "not-idempotent" } else { "not-idempotent-plain" };
+        let mut sig = format!("{space}:{}>{}", last_tok.clone().unwrap_or_else(|| "start".into()), next_tok(&after));
+        // a bracket group that the first pass broke over several lines and the second pass joins
+        // (or the reverse): the difference starts with a line break directly behind `(` / `[`
+        let (c1, c2) = (f.chars().nth(i), ff.chars().nth(i));
+        if matches!(last_tok.as_deref(), Some("(") | Some("[")) && before.ends_with(['(', '[']) {
+            if c1 == Some('\n') && c2 != Some('\n') {
+                sig = "not-idempotent:bracket-group-joined".into();
+            } else if c2 == Some('\n') && c1 != Some('\n') {
+                sig = "not-idempotent:bracket-group-split".into();
+            }
+        }
         ev.label(&format!("sig:{sig}"));
         if let Ok(want) = std::env::var("VERIF_C18_COLLECT") {
             if want == sig && ev.samples.len() < 6 {
@@ -163,7 +176,9 @@ fn valid_text(stream: &[u32], prof: &Profile) -> String {
     let g = ggen::build(prof, stream);
     let tail: Vec<u32> = stream.iter().rev().take(300).copied().collect();
     let mut d = Dice::new(&tail);
-    textgen::layout(&g, &mut d, true).text
+    // half of the layouts keep comments out of the placements of known finding K9
+    let plain = d.chance(1, 2);
+    textgen::layout_with(&g, &mut d, true, plain).text
 }
 
 pub fn llw() -> std::path::PathBuf {
